@@ -164,12 +164,13 @@ def run(rng, n_texts=60, deadlines=True):
                 else:
                     # constant scorer: ties are broken by set iteration order (not modelled); without a depth
                     # limit the *set of values* is order independent, with one nothing is compared but errors
-                    vals = lambda s: sorted(set(c.split("@")[0] for c in s.split(";;") if c))
-                    ok = (vals(gc) == vals(cands)) if m[5] == 0 else True
+                    # (even the *set* of emitted values depends on the visiting order: a production emits its partial values exactly when
+                    # all its successors were already seen) -> only the exception status and emptiness are compared
+                    ok = (gc == "") == (cands == "")
                 ok = ok and ge == err
                 if cands:
                     nontrivial += 1
-                    if scn == "hash" or m[5] == 0:
+                    if scn == "hash":
                         ok = ok and gs == subj and gl == labs
                     if scn == "hash":
                         ok = ok and gb == best
